@@ -10,8 +10,11 @@ class InjectedIOError(OSError):
 
 
 class FaultFS:
-    def __init__(self, fail_at=None, partial=False, lose_on_close=False):
+    def __init__(self, fail_at=None, partial=False, lose_on_close=False, exc=None):
         self.fail_at = fail_at
+        # what the failing call raises: an I/O error, or e.g. KeyboardInterrupt (the user's Ctrl-C arriving inside the call)
+        self.exc = exc or InjectedIOError
+        self.injected = False
         self.partial = partial
         # a failing close loses what was written since the open (a store that uploads on close, a failed final flush)
         self.lose_on_close = lose_on_close
@@ -22,6 +25,7 @@ class FaultFS:
     def _event(self, kind, path, info=None):
         self.events.append((kind, path, info))
         if self.fail_at is not None and len(self.events) == self.fail_at:
+            self.injected = True
             return True
         return False
 
@@ -30,7 +34,7 @@ class FaultFS:
         if "w" in mode or "+" in mode or "a" in mode:
             existed = os.path.exists(path)
             if self._event("open_w", path, {"mode": mode, "existed": existed}):
-                raise InjectedIOError("injected failure of open(%r, %r)" % (path, mode))
+                raise self.exc("injected failure of open(%r, %r)" % (path, mode))
             f = _File(self, open(path, mode), path)
             self.open_files.append(f)
             return f
@@ -39,7 +43,7 @@ class FaultFS:
     def mkdirs(self, path):
         path = str(path)
         if self._event("mkdir", path, {"existed": os.path.isdir(path)}):
-            raise InjectedIOError("injected failure of mkdirs(%r)" % path)
+            raise self.exc("injected failure of mkdirs(%r)" % path)
         os.makedirs(path, exist_ok=True)
 
     def close_all(self):
@@ -60,7 +64,7 @@ class _File:
                 half = bytes(data)[: len(data) // 2]
                 self._f.write(half)
                 self._f.flush()
-            raise InjectedIOError("injected failure of write(%d bytes) to %r" % (len(data), self._path))
+            raise self._fs.exc("injected failure of write(%d bytes) to %r" % (len(data), self._path))
         return self._f.write(data)
 
     def close(self):
@@ -74,7 +78,7 @@ class _File:
                 except Exception:
                     pass
             self._f.close()
-            raise InjectedIOError("injected failure of close(%r)" % self._path)
+            raise self._fs.exc("injected failure of close(%r)" % self._path)
         self._f.close()
 
     def __enter__(self):
